@@ -76,6 +76,11 @@ CHECKS = {
         text="Generated-input search over configurations: each corpus file and each Hypothesis-drawn multi-component knotted structure is processed in a fresh interpreter per sampled hash seed, twice per interpreter; digests of all output artefacts (interaction lists, JSON, CSV, BPSEQ, dot-bracket, extended, ordered all-dot-brackets, elements, CLI output, written PDB/mmCIF) must coincide. Sampling of hash seeds - no proof of seed independence.",
         note=TRUST + "4 (quick) / 8 (thorough) hash seeds are sampled; the 'random' seed is replaced by a VERIF_SEED-derived value to keep runs reproducible.",
         ref="3 C14"),
+    "C17": dict(
+        technique="corpus + Hypothesis residue sets with planted near-threshold contacts, all 32 option combinations enumerated per structure, against an all-pairs reference; CLI report and CSV parsed and cross-checked",
+        text="Generated-input search over inputs and exhaustive over configurations: for every structure all 32 option sets are evaluated and the listed pairs compared both ways with a brute-force enumeration (typed radii, +0.5 A MolProbity margin, filters, occupancy rule, each pair once, occupancy sums). The command-line tool is run on harness-written mmCIF files; its per-residue and per-chain maxima, atom lines and CSV rows are parsed and must agree with each other and with the definition.",
+        note=TRUST + "Residue3D.is_nucleotide is taken as the definition of 'nucleic acid'. Distances within 1e-6 of the limit are undecided.",
+        ref="3 C17"),
     "C18": dict(
         technique="constructive generator (points built from a prescribed dihedral) + metamorphic relations (reversal, mirror, rigid motion) + differential v1 vs v2 + corpus torsions against an independent projection formula",
         text="Generated-input search: ~17k (quick) / ~1M (thorough) quadruples built in internal coordinates so that the IUPAC dihedral is known by construction, then rigidly moved; both implementations, the Atom wrapper, Residue3D.chi/chi_class and the tertiary_v2 torsion table (corpus files) are compared with the prescribed value / an independent formula. The v2 sign inversion is a recorded known finding (exact signature); everything else about v2 and all of v1 is checked without exclusion.",
